@@ -1,6 +1,6 @@
 SPECIFICATION Spec
 CONSTANTS
-  Tokens = {"a", "/", ".", "E(", "AS", "LOW", "ASP", "NEST", "NS", "OPT", "CLS", "CLB", "ANY"}
+  Tokens = {"a", "/", ".", "E(", "BS", "AS", "LOW", "ASP", "NEST", "NS", "OPT", "CLS", "CLB", "ANY"}
   MaxLen = 2
 INVARIANTS CutAtTokenBoundary CutWithinCommonTokens CutIsCommonTokens Emit
 CHECK_DEADLOCK FALSE
